@@ -215,7 +215,7 @@ def directed_inputs(spec, k=2):
                     if a != c:
                         out.append("{%s: %s, %s: %s}" % (a, b, c, d))
             out += ["'{\"1\": 2}'", "'a=1&b=x'", "[1, 2]", "None", "1", "'x'", "[(1, 2, 3)]", "{(1, 2): 3}", "[[1, 2]]",
-                    "{None: 1}", "MyDict(a=1)", "elem(a='1')", "{10**5000: 1}"]
+                    "{None: 1}", "MyDict(a=1)", "elem(a='1')"]
             return _dedup(out)
     if kind == "dc":
         fields = spec[2]
